@@ -8,9 +8,9 @@ CONFIG = dict(
     fuzz_max_len=4096,
     enumerates=False,
     engines="rapidcheck + enumeration (registries) + libFuzzer(ASan/UBSan)",
-    technique="round-trip property over all registry entries incl. histories of the object (copy constructor / clone() / operator= / re-parse / parse(filename) / use before printing), differential test of KeyParser (all parse overloads, remove_key) against a reference mini-parser on grammar-generated text, grammar-aware mutation of library-written Interfile headers with consistency/size/allocation oracles, list-length mutations of every list-valued / vectorised key with a reference model of the accepted object computed from the header text, libFuzzer under ASan/UBSan through the same decoder",
+    technique="round-trip property over all registry entries incl. histories of the object (copy constructor / clone() / operator= / re-parse / parse(filename) / use before printing), differential test of KeyParser (all parse overloads, remove_key) against a reference mini-parser on grammar-generated text, grammar-aware mutation of library-written Interfile headers with consistency/size/allocation oracles, list-length mutations of every list-valued / vectorised key with a reference model of the accepted object computed from the header text, end-of-text / start-of-text variants of every KeyParser text (final end-of-line removed, \\r\\n, bare \\r, blanks behind the last line, stop key as last line without end-of-line, no stop key) compared with the newline-terminated text through all parse overloads incl. a call-back key, metamorphic truncation clause on library-written headers (cut directly before the end-of-line of line k == cut directly behind it, \\r\\n headers == \\n headers: same decision and same object fingerprint), libFuzzer under ASan/UBSan through the same decoder",
     rule="(a) a registry entry with >= 1 parameter changed from its default that survives print/parse/print; (b) a generated KeyParser text with >= 1 vectorised or aliased key; (c,d) a mutated header (incl. the list-length mutations) that still has its start key and was either accepted (parse ran past the stop key / post_processing) or rejected by post_processing; distinct by case hash",
-    level_text="Exploration: every registry entry is printed, parsed and printed again; KeyParser is compared with an independent reference parser on generated texts; library-written headers are mutated and fed to all readers, which must either reject cleanly or return an object consistent with the header and the data file, without sanitizer reports or allocations above 512 MiB; every list of a header is made shorter / longer / empty on its own and an accepted object is compared with a model computed from the text; copies, clones and used objects of every registered class must print and re-parse like the original.",
+    level_text="Exploration: every registry entry is printed, parsed and printed again; KeyParser is compared with an independent reference parser on generated texts; library-written headers are mutated and fed to all readers, which must either reject cleanly or return an object consistent with the header and the data file, without sanitizer reports or allocations above 512 MiB; every list of a header is made shorter / longer / empty on its own and an accepted object is compared with a model computed from the text; copies, clones and used objects of every registered class must print and re-parse like the original; the last line of a text counts whether or not an end-of-line character follows it (KeyParser texts in nine end variants, library-written headers cut before and behind every end-of-line).",
     level_note="Trusted: the reference mini-parser, the size bookkeeping and the header text model in harness/c17_*.cxx.",
     assumptions=[],
     quick=dict(workers=2, cases=3000, seconds=30, size=60, run_flavours=["plain", "asan"], asan_workers=1, asan_cases=1000, fuzz_seconds=25, fuzz_jobs=2),
